@@ -3,7 +3,7 @@
 tier=$1; shift
 cd "$(dirname "$0")/.."
 for seed in "$@"; do
-  for p in C01 C02 C03 C04 C05 C06 C07 C08 C09 C10 C11 C12 C13 C14 C15 C16 C17 C18 C19 C20; do
+  for p in ${PROPS:-C01 C02 C03 C04 C05 C06 C07 C08 C09 C10 C11 C12 C13 C14 C15 C16 C17 C18 C19 C20}; do
     out=$(VERIF_SEED=$seed /venv/bin/python -m gv $p --tier $tier --no-evidence 2>&1)
     rc=$?
     echo "seed=$seed rc=$rc $(echo "$out" | grep '^\[gv\]' | cut -c1-220)"
